@@ -601,13 +601,23 @@ def repr_coupling(run, model, rule="C06.repr-coupling"):
                 if dn.kind != "test" or dn is n:
                     continue
                 tt = strip_sites(flow.term(dn.ast, dn))
-                if tt == ("op", "cmp:In", (NODE, rv)):
-                    kinds.add("recomputed")
-                elif any(sx[0] == "call" and fi_of_term(model, sx[1]) is rep_fi for sx in subterms(tt)):
-                    kinds.add("representable")
-                elif fi.name == "visit_Name":
-                    kinds.add("non-builtin")
-                else:
+                if tables.evaluate(tt, lambda _t: None) is not None:
+                    continue  # decided by constants alone (a flag of an inlined helper): not a guard
+                found = False
+                # a conjunct decided by a constant does not guard anything either
+                live = [c_ for c_ in (tt[2] if tt[0] == "op" and tt[1] in ("And", "Or") else (tt,)) if tables.evaluate(c_, lambda _t: None) is None]
+                for part in live:
+                    subs = list(subterms(part))
+                    if any(sx in (("op", "cmp:In", (NODE, rv)), ("op", "cmp:NotIn", (NODE, rv))) for sx in subs):
+                        kinds.add("recomputed")
+                        found = True
+                    elif any(sx[0] == "call" and fi_of_term(model, sx[1]) is rep_fi for sx in subs):
+                        kinds.add("representable")
+                        found = True
+                    elif fi.name == "visit_Name":
+                        kinds.add("non-builtin")
+                        found = True
+                if not found:
                     kinds.add("other:" + show(tt, 60))
             want = {"recomputed"}
             if fi.name in ("visit_Name", "visit_Attribute", "visit_NamedExpr", "visit_JoinedStr"):
@@ -631,6 +641,22 @@ def repr_coupling(run, model, rule="C06.repr-coupling"):
                         g = sub.args[0]
                         if len(g.generators) == 1 and src_of(g.generators[0].iter) == "self._variable_lookup" and isinstance(g.generators[0].target, ast.Name) and src_of(g.elt) == "node.id in %s" % g.generators[0].target.id and not g.generators[0].ifs:
                             idiom = "any"
+                # ... or a helper method of the visitor doing the same walk: self.<helper>(node.id)
+                for sub in ast.walk(fi.node):
+                    if isinstance(sub, ast.Call) and isinstance(sub.func, ast.Attribute) and isinstance(sub.func.value, ast.Name) and sub.func.value.id == "self":
+                        hm = model.method("_represent", "Visitor", sub.func.attr, required=False)
+                        args_ = list(sub.args) + [kw.value for kw in sub.keywords]
+                        if hm is not None and len(args_) == 1 and src_of(args_[0]) == "node.id" and len(hm.params) == 2:
+                            hp = hm.params[1]
+                            hfl = get_flow(model, hm)
+                            for h2 in hfl.cfg.nodes:
+                                if h2.kind == "next" and any(pp.kind == "iter" and strip_sites(hfl.term(pp.ast, pp)) == vl for _, pp in h2.pred):
+                                    inside2 = set(id(x_) for st_ in h2.stmt.body for x_ in ast.walk(st_))
+                                    tests2 = [t2 for t2 in hfl.cfg.nodes if t2.kind == "test" and id(t2.stmt) in inside2]
+                                    rets = [strip_sites(hfl.term(r_.ast, r_)) for r_ in hfl.cfg.nodes if r_.kind == "return" and r_.ast is not None]
+                                    inside_rets = [strip_sites(hfl.term(r_.ast, r_)) for r_ in hfl.cfg.nodes if r_.kind == "return" and r_.ast is not None and id(r_.stmt) in inside2]
+                                    if len(tests2) == 1 and strip_sites(hfl.term(tests2[0].ast, tests2[0])) == ("op", "cmp:In", (("param", hp), ("elem", vl))) and inside_rets == [("const", "True")] and sorted(rets) == [("const", "False"), ("const", "True")]:
+                                        idiom = "helper"
                 if idiom is None and bad is None:
                     bad = (n, "whether a name is a builtin is not decided by looking it up in the tables of arguments, closure and globals: builtin constants (NotImplemented, Ellipsis, ...) would be listed, or shadowing arguments hidden")
             if kinds != want and bad is None:
